@@ -220,6 +220,30 @@ structure InstIn where
   dis : Dis
   top : Ty
 
+mutual
+/-- the type variables that occur in a type (as the type itself, as arguments, inside projections) -/
+def tvarsOf : Ty → List Ty
+  | tparam nm v bd => [tparam nm v bd]
+  | wild _ (some b) => tvarsOf b
+  | param _ _ args _ => tvarsOfL args
+  | _ => []
+def tvarsOfL : List Ty → List Ty
+  | [] => []
+  | x :: xs => tvarsOf x ++ tvarsOfL xs
+end
+
+/-- the caller's requests respect the declared bounds *among themselves*: a requested assignment
+    for `q : B` is within `B` under the requests, whenever all parameters that `B` mentions are
+    requested too.  The property speaks about requests that are "consistent with the bounds";
+    for inconsistent requests `instOK` only checks the shape of the result. -/
+def preConsistent (I : InstIn) : Bool :=
+  I.params.all fun q =>
+    match I.pre.get q, boundOf q with
+    | some t, some b =>
+        !((tvarsOf b).all fun v => !memBeq v I.params || (I.pre.get v).isSome) ||
+        withinD I.top t (substituteType b I.pre)
+    | _, _ => true
+
 /-- a later pre-assigned parameter whose bound chain reaches `p` may overwrite `p`'s argument
     (`update_type_var_bound_rec`) -/
 def overridable (I : InstIn) (p : Ty) : Bool :=
@@ -231,9 +255,9 @@ def projAllowed (I : InstIn) (p : Ty) (others : List Ty) (v : Nat) : Bool :=
   | .ok cands => v != 0 && cands.contains v
   | _ => false
 
-/-- `a` is the type `t` or a projection of it -/
+/-- `a` is the type `t`, a projection of it, or — `t` being a projection — its bound -/
 def isOrWraps (a t : Ty) : Bool :=
-  beq a t || (match a with
+  beq a t || beq a (argCore t) || (match a with
     | wild _ (some x) => beq x t && !t.isWild
     | _ => false)
 
@@ -244,15 +268,36 @@ def requestsBelow (I : InstIn) (p : Ty) : List Ty :=
     | some b => if beq b p then some kv.2 else none
     | none => none
 
+/-- the assignments the caller requested for parameters whose bound chain reaches `p`
+    (`update_type_var_bound_rec` propagates them upwards) -/
+def requestsAbove (I : InstIn) (p : Ty) : List Ty :=
+  I.params.filterMap fun q =>
+    match I.pre.get q with
+    | some t => if memBeq p (boundChain q) then some t else none
+    | none => none
+
 /-- the argument stems from the caller's own assignments: it is the assignment requested for `p`
-    (possibly wrapped in a projection), or — `p` itself not being assigned — the assignment
-    requested for a parameter whose bound is `p` (the code then gives `p` the same type:
-    `class A<T1, T2 : T1>`, `T2 ↦ String` requested, so `T1 ↦ String`).  Whether such an argument
+    (possibly wrapped in a projection, or the bound of a requested projection), or the
+    assignment requested for a parameter whose bound is `p` (`class A<T1, T2 : T1>`, `T2 ↦ String`
+    requested, so `T1 ↦ String`) or whose bound chain reaches `p`.  Whether such an argument
     respects `p`'s own bound is the caller's business ("when they are consistent with the bounds"). -/
 def requestedBy (I : InstIn) (p a : Ty) : Bool :=
-  match I.pre.get p with
-  | some t => isOrWraps a t
-  | none => (requestsBelow I p).any fun v => isOrWraps a v
+  (match I.pre.get p with
+   | some t => isOrWraps a t
+   | none => (requestsBelow I p).any fun v => isOrWraps a v) ||
+  (requestsAbove I p).any fun v => isOrWraps a v
+
+/-- a projection the helper did not decide on: the caller's own request for `p`, for a parameter
+    below `p` or above it in a bound chain, or the verbatim copy of the assignment of `p`'s bound
+    (`T2 : T1`, `T1 ↦ out S` gives `T2 ↦ out S`, see the comments in the code) -/
+def exemptProjection (I : InstIn) (σ : TMap) (p a : Ty) : Bool :=
+  (match I.pre.get p with
+   | some t => beq a t
+   | none => (requestsBelow I p).any fun t => beq a t) ||
+  ((requestsAbove I p).any fun t => beq a t) ||
+  (match boundOf p with
+   | some b => b.isTVar && (match σ.get b with | some s => beq a s | none => false)
+   | none => false)
 
 /-- the checks for one parameter `p` (with the later parameters `others`) and its argument `a`
     under the final assignment `σ` -/
@@ -272,13 +317,9 @@ def instOK1 (I : InstIn) (σ : TMap) (p : Ty) (others : List Ty) (a : Ty) : Bool
        (match a with
         | wild v (some x) => beq x t && !t.isWild && projAllowed I p others v
         | _ => false)) &&
-  -- projections only where permitted (a projection requested by the caller is the caller's)
+  -- projections only where permitted
   (match a with
-   | wild v bd =>
-       (match I.pre.get p with
-        | some t => beq a t
-        | none => (requestsBelow I p).any fun t => beq a t) ||
-       (bd.isSome && projAllowed I p others v)
+   | wild v bd => exemptProjection I σ p a || (bd.isSome && projAllowed I p others v)
    | _ => true)
 
 def instOKL (I : InstIn) (σ : TMap) : List Ty → Bool
@@ -294,7 +335,8 @@ def instOK (I : InstIn) (σ : TMap) (targs : Option (List Ty)) : Bool :=
   (match targs with
    | none => true
    | some as => as.length == I.params.length && beqL as (I.params.filterMap σ.get)) &&
-  instOKL I σ I.params
+  I.params.all (fun p => (σ.get p).isSome) &&
+  (!preConsistent I || instOKL I σ I.params)
 
 end Inst
 end Heph
